@@ -483,6 +483,9 @@ def run(ctx, res):
     _run_shapes(ctx, res, S)
     _run_injected(ctx, res, S)
     _run_cross_process(ctx, res, S)
+    # representation- and history-robustness of the public functions (harness/apirobust.py)
+    from .. import apirobust_cases as _AC
+    _AC.c15(res, np.random.default_rng(ctx["seed"] + 4242), ctx)
 
 
 def replay(data):
